@@ -340,4 +340,11 @@ func c06BindCase(t *testing.T, h *vHarness, r *vRand) {
 	if roundTrips >= 2 {
 		h.Nontrivial()
 	}
+	// extension round 6: a preemption dry run over the pods that are bound now (drawn after everything above)
+	objs, cpusOf := map[int]*corev1.Pod{}, map[int][]int{}
+	for u, lp := range live {
+		objs[u] = lp.obj
+		cpusOf[u] = lp.snap.cpus
+	}
+	c06BindDryRun(h, r, plg, rm, node, all, dims[3], objs, cpusOf)
 }
